@@ -87,7 +87,23 @@ func (c CaseA) has(src string) bool {
 }
 
 // key is the variable name under test.
+// intlNames are key names beyond ASCII (Cyrillic, accented Latin, CJK); with Addr "tagname" the
+// struct carries the name as its JSON tag.
+var intlNames = []string{"название", "città", "城市"}
+
+func nonASCII(s string) bool {
+	for _, r := range s {
+		if r > 127 {
+			return true
+		}
+	}
+	return false
+}
+
 func (c CaseA) key() string {
+	if c.Name != "" && c.Addr == "tagname" {
+		return c.Name
+	}
 	if c.Name != "" && c.Addr == "key" {
 		return c.Name
 	}
@@ -399,6 +415,23 @@ func (c CaseA) fillArg(v vals.V) (any, error) {
 	if c.Fill == "map" {
 		return map[string]any{c.key(): v.Go(), "extra": "x"}, nil
 	}
+	if c.Addr == "tagname" {
+		// struct{ Fv string `json:"<name>"`; Extra string `json:"extra"` } with a non-ASCII tag name
+		if c.VType != "string" || c.Name == "" {
+			return nil, fmt.Errorf("malformed case: tagname needs a name and vtype string")
+		}
+		str := reflect.TypeOf("")
+		pv := reflect.New(reflect.StructOf([]reflect.StructField{
+			{Name: "Fv", Type: str, Tag: reflect.StructTag(`json:"` + c.Name + `"`)},
+			{Name: "Extra", Type: str, Tag: `json:"extra"`},
+		}))
+		pv.Elem().Field(0).SetString(v.S)
+		pv.Elem().Field(1).SetString("x")
+		if c.Fill == "ptr" {
+			return pv.Interface(), nil
+		}
+		return pv.Elem().Interface(), nil
+	}
 	if c.Addr == "tagopt" {
 		pv, err := optStruct(c.VType, v)
 		if err != nil {
@@ -633,6 +666,14 @@ func (c CaseA) body() string {
 				for _, s := range srcs {
 					if !isNull(c.Vals[s]) {
 						fmt.Fprintf(&b, `<b data-m="is-%s" v-if="%s == %s">x</b>`, s, k, lit(c.Vals[s]))
+					}
+				}
+			}
+			if nonASCII(k) && c.VType == "string" {
+				// === and !== are documented as the same comparison as == and != (docs/expressions.md)
+				for _, s := range srcs {
+					if !isNull(c.Vals[s]) {
+						fmt.Fprintf(&b, `<b data-m="s3-%s" v-if="%s === %s">x</b><b data-m="n3-%s" v-if="%s !== %s">x</b>`, s, k, lit(c.Vals[s]), s, k, lit(c.Vals[s]))
 					}
 				}
 			}
@@ -1103,6 +1144,15 @@ func checkA(c CaseA) error {
 			if err := wantHit(h); err != nil {
 				return err
 			}
+			if nonASCII(k) && c.VType == "string" {
+				for _, s := range c.Have {
+					_, eq := byID["s3-"+s]
+					_, ne := byID["n3-"+s]
+					if eq != (s == wsrc) || ne != (s != wsrc) {
+						return fmt.Errorf("render (vif): %s: %s === %s rendered=%v, %s !== %s rendered=%v, but == picks %q", desc, k, lit(c.Vals[s]), eq, k, lit(c.Vals[s]), ne, wsrc)
+					}
+				}
+			}
 			// truthiness of the chosen value (docs/syntax.md: 0, false, "", nil are falsey; every value
 			// used here except bool false is non-zero / non-empty)
 			truthy := !isZero(wv)
@@ -1176,6 +1226,24 @@ func enumA(f func(c CaseA, excluded string) bool) {
 		for i, s := range order {
 			if mask&(1<<i) != 0 {
 				have = append(have, s)
+			}
+		}
+		// key names beyond ASCII, multi-byte values, struct data carrying the name as JSON tag
+		for _, name := range intlNames {
+			vs := map[string]vals.V{}
+			for _, s := range have {
+				vs[s] = vals.Str("v" + s + "Ж城è")
+			}
+			for _, fm := range [][2]string{{"map", "key"}, {"struct", "tagname"}, {"ptr", "tagname"}} {
+				for _, pos := range positions {
+					if len(have) == 0 && pos == "expr" {
+						continue
+					}
+					c := CaseA{Have: have, Vals: vs, VType: "string", Ctor: "newfs", Fill: fm[0], Addr: fm[1], Pos: pos, Name: name}
+					if !f(c, excludedA(known, c)) {
+						return
+					}
+				}
 			}
 		}
 		// entry points other than Load.Fill.Assign.Render, with scalar and nested-map values
@@ -1529,7 +1597,12 @@ func classifyA(c CaseA) (bool, []string) {
 	if c.Decoy {
 		cls = append(cls, "decoy")
 	}
-	if c.Name != "" {
+	if nonASCII(c.Name) {
+		cls = append(cls, "non-ascii-key", "non-ascii-key="+c.Name)
+		if c.Addr == "tagname" {
+			cls = append(cls, "struct-with-non-ascii-json-tag")
+		}
+	} else if c.Name != "" {
 		cls = append(cls, "key-named-like-a-template-function")
 	}
 	if c.Door != "" {
